@@ -119,6 +119,36 @@ class RunsModel(WitnessModel):
         if path in ('uuid.uuid4', 'uuid.uuid1'):
             RunsModel._fresh += 1
             return f'fresh-label-{RunsModel._fresh}'  # a name no coordinate of the input has
+        if path == 'scipp.bins' and isinstance(kwargs.get('data'), SVar) and items_of(kwargs['data']) is not None:
+            # bins given by begin / end indices into the data (contiguous slices, in the order listed)
+            data, begin, end = kwargs['data'], kwargs.get('begin'), kwargs.get('end')
+            its = items_of(data)
+
+            def ints(v):
+                if isinstance(v, SVar) and items_of(v) is not None:
+                    return [self.value(x) for x in items_of(v)]
+                if isinstance(v, list | tuple) or hasattr(v, 'tolist'):
+                    return [F(int(x)) for x in (v.tolist() if hasattr(v, 'tolist') else v)]
+                return None
+            b, e = ints(begin), ints(end)
+            if b is None or any(x is None for x in b):
+                raise AnalysisError(f'sc.bins: begin indices without witness values at {interp.where(node)}')
+            if e is None:
+                e = [*b[1:], F(len(its))]
+            coords = data.members.get('coords') or {}
+            contents = []
+            for lo, hi in zip(b, e, strict=True):
+                lo, hi = int(lo), int(hi)
+                c = self.array(interp, its[lo:hi], data.members['dims'][0], like=data)
+                c.kind = 'dataarray'
+                c.members['coords'] = {n: self.array(interp, items_of(cv)[lo:hi], data.members['dims'][0], like=cv)
+                                       for n, cv in coords.items() if isinstance(cv, SVar) and items_of(cv) is not None}
+                contents.append(c)
+            dim = begin.members['dims'][0] if isinstance(begin, SVar) and begin.members.get('dims') else kwargs.get('dim')
+            return Binned(self, interp, dim, contents, {})
+        if path == 'scipp.DataArray' and (args and isinstance(args[0], Binned) or isinstance(kwargs.get('data'), Binned)):
+            b = args[0] if args else kwargs['data']
+            return Binned(self, interp, b.dim, b.contents, dict(kwargs.get('coords') or {}))
         return super().call_ext(interp, path, args, kwargs, node)
 
     # the mean of no numbers is not a number: it propagates through arithmetic and compares false with everything
